@@ -14,7 +14,7 @@ RULE = ("values from the seeded JSON generator (all string classes incl. isolate
         "big ints, permuted insertion orders), JSON texts in random spellings and malformed neighbours; a case is "
         "non-trivial when its value contains a container or a non-ASCII/escaped string; distinct = distinct canonical bytes")
 
-THEOREMS = ["parse_ser", "ser_injective", "ser_perm", "ser_ascii", "ser_fixpoint", "canon_idem"]
+THEOREMS = ["parse_ser", "ser_injective", "ser_perm", "ser_ascii", "ser_fixpoint", "canon_idem", "parsed_roundtrips", "long_integer_literal_rejected"]
 
 
 def nontrivial(v) -> bool:
@@ -54,7 +54,7 @@ def mutate_value(rng, v):
 
 def run(ck: Check) -> None:
     rng = ck.rng
-    n = 6000 if ck.thorough else 1200
+    n = ck.n(6000, 1200)
     depth = 8 if ck.thorough else 5
     stats = ck.dist
     values = []
@@ -96,7 +96,7 @@ def run(ck: Check) -> None:
             ck.nontrivial_add(hashlib.sha1(b).digest())
 
     # 2. order independence: permuted insertion orders give identical bytes
-    perm_vals = [v for v in values if isinstance(v, dict) and len(v) > 1][: (1500 if ck.thorough else 300)]
+    perm_vals = [v for v in values if isinstance(v, dict) and len(v) > 1][: (ck.n(1500, 300))]
     perms = [gen.shuffled_copy(rng, v) for v in perm_vals]
     res = ck.run_cases([Case("ser", [p], tag="ser-permuted") for p in perms], "corr:canonserialize/bytes")
     for v, r in zip(perm_vals, res):
@@ -125,7 +125,7 @@ def run(ck: Check) -> None:
 
     # 4. injectivity: values that differ never share bytes
     pairs = []
-    for v in wfvals[: (2500 if ck.thorough else 600)]:
+    for v in wfvals[: (ck.n(2500, 600))]:
         w = mutate_value(rng, v)
         if w is not None:
             pairs.append((v, w))
@@ -144,7 +144,7 @@ def run(ck: Check) -> None:
 
     # 5. parser correspondence on arbitrary spellings and malformed text
     texts = []
-    for v in wfvals[: (3000 if ck.thorough else 700)]:
+    for v in wfvals[: (ck.n(3000, 700))]:
         t = jsontext.rand_text(rng, v)
         texts.append((t, "text-valid"))
         for _ in range(2):
@@ -158,8 +158,12 @@ def run(ck: Check) -> None:
             continue  # UTF-16/32 auto-detection is not modelled
         pcases.append(Case("parse", [b], tag=tag))
     # raw invalid UTF-8 as well
-    for _ in range(100 if ck.thorough else 30):
+    for _ in range(ck.n(100, 30)):
         pcases.append(Case("parse", [b'"' + bytes(rng.choice([0x80, 0xC0, 0xC2, 0xE0, 0xED, 0xF4, 0xF5, 0xFF, 0xA0, 0x41]) for _ in range(rng.randint(1, 4))) + b'"'], tag="text-bad-utf8"))
+    # CPython's limit on int <-> str conversion (4300 digits): integer literals at and beyond it, floats beyond it (no limit)
+    for nd in (4299, 4300, 4301, 5000):
+        for txt in ("1" + "0" * (nd - 1), "-" + "9" * nd, "[1, " + "7" * nd + "]", '{"a": ' + "3" * nd + "}", "1" * nd + ".5", "1" * nd + "e5", "0" * nd):
+            pcases.append(Case("parse", [txt.encode()], tag="text-int-limit"))
     res = ck.run_cases(pcases, "corr:load_metadata_from_file/value")
     for r in res:
         ck.count("parse:" + ("ok" if r.impl.startswith("V") else "rejected"))
